@@ -62,7 +62,7 @@ pub fn reprs_for(spec: &ModelSpec) -> (Vec<Repr>, Vec<Repr>) {
             enc.push(Repr::NonContigCtor);
             dec.push(Repr::NonContigCtor);
             if lookup_ok {
-                enc.push(Repr::LookupBack);
+                enc.extend([Repr::LookupBack, Repr::LookupCtor]);
                 dec.extend([Repr::Lookup, Repr::GenLookup, Repr::LookupCtor, Repr::LookupBack, Repr::NonContigLookupCtor, Repr::NonContigLookupBack]);
             }
         }
@@ -70,7 +70,7 @@ pub fn reprs_for(spec: &ModelSpec) -> (Vec<Repr>, Vec<Repr>) {
             enc.extend([Repr::View, Repr::GenEnc, Repr::FromTable, Repr::NonContig, Repr::NonContigPaged]);
             dec.extend([Repr::View, Repr::GenDec, Repr::FromTable, Repr::NonContig, Repr::NonContigPaged]);
             if lookup_ok {
-                enc.push(Repr::LookupBack);
+                enc.extend([Repr::LookupBack, Repr::LookupCtor]);
                 dec.extend([Repr::Lookup, Repr::GenLookup, Repr::LookupCtor, Repr::LookupBack, Repr::NonContigLookupCtor, Repr::NonContigLookupBack]);
             }
         }
